@@ -343,6 +343,13 @@ def held_by(w, x):
     return out
 
 
+def owner_in(ps, n):
+    for (nn, _, o) in ps:
+        if nn == n:
+            return o
+    return None
+
+
 def ready(w):
     sh = w.shadow
     return sh["rate"] != 0 and sh["state"] == 1 and sh["produce"]
@@ -406,7 +413,10 @@ def gen_behalf(rng, w):
         if bad < 0.90:
             # not authorised / revoked / blacklisted caller
             un = [(u, a) for (u, a) in PAIRS if not wl[(u, a)] and u in USERS and a in AGENTS] or [(1, 2)]
-            u, a = rng.choice(un)
+            revoked = [(u, a) for (u, a) in sorted(getattr(w, "ever", ())) if not w.last["listed"].get((u, a))]
+            black = [(u, a) for (u, a) in un if w.last["listed"].get((u, a)) and w.last["black"].get(a)]
+            pick = rng.random()
+            u, a = rng.choice(revoked if (revoked and pick < 0.45) else black if (black and pick < 0.75) else un)
             mine = [(n, v) for (n, v, o) in agents_with[a] if o == u]
             adds = [(n, part(v)) for n, v in mine[:rng.choice([0, 1])]]
             return ["EnterOB", a, u, enter_amount(rng, w), adds]
@@ -443,7 +453,9 @@ def gen_behalf(rng, w):
                 if o != a and not wl.get((o, a)):
                     cands.append((a, n, v))
         if cands:
-            a, n, v = rng.choice(cands)
+            gone = [(a, n, v) for (a, n, v) in cands
+                    if (owner_in(agents_with[a], n), a) in getattr(w, "ever", ()) and not w.last["listed"].get((owner_in(agents_with[a], n), a))]
+            a, n, v = rng.choice(gone if (gone and rng.random() < 0.6) else cands)
             return ["ClaimOB", a, (n, part(v)), []]
     # mixed owners at some index
     cands = []
@@ -479,6 +491,7 @@ def track_hub(w, op, o):
     if op[0] == "Hub" and o["ok"]:
         if op[1] == "whitelist":
             w.hubpairs.add((op[2], op[3]))
+            w.ever.add((op[2], op[3]))
         elif op[1] == "removeWhitelist":
             w.hubpairs.discard((op[2], op[3]))
 
@@ -497,6 +510,7 @@ def gen_history(host, seed, nops):
     cfg["hub"] = initial_hub(rng)
     w = cls(cfg)
     w.hubpairs = set(map(tuple, cfg["hub"]["wl"]))
+    w.ever = set(w.hubpairs)
     trace = []
     try:
         for _ in range(nops):
